@@ -73,7 +73,7 @@ def run(ctx):
     if not ok_h:
         return
     quick = ctx.tier == "quick"
-    results = engine.run_programs(ctx, 40 if quick else 400, 3 if quick else 8, VARIANTS, tag="c02")
+    results = engine.run_programs(ctx, 40 if quick else 200, 3 if quick else 6, VARIANTS, tag="c02")
     ctx.cov["programs"] = engine.status_counts(results)
     engine.describe_program_failures(ctx, results)
     ctx.cov["rule"] = ("as C01; each implementation dump after the final close() is compared, up to an isomorphism fixing caller-created "
